@@ -62,3 +62,78 @@ def check_encoding_forwarding(idx: Index, rep, relpaths: Iterable[str], rule: st
                                what="every encoding routine is called with the object's own encoding name and spin-orbital ordering",
                                reason="; ".join(why))
     return n
+
+
+# ---------------------------------------------------------------------------------------------------
+# K7.swapped-arguments: a positional argument named after a *different* parameter of the callee
+_SWAP_EXAMPLE = '''
+def trotterize(operator, time=1., n_trotter_steps=1, trotter_order=1, control=None):
+    return operator
+class U:
+    def good(self, t):
+        return trotterize(self.operator, t, self.n_trotter_steps, self.trotter_order, control=None)
+    def bad(self, t):
+        return trotterize(self.operator, t, self.trotter_order, self.n_trotter_steps, control=None)
+'''
+
+
+def swapped_findings(tree: ast.AST, resolve):
+    """(call node, qualname of the caller, callee, position, argument name, parameter name): `resolve(name)` -> parameter list of a function called by its bare name"""
+    out = []
+    n_sites = 0
+
+    def visit(body, prefix):
+        nonlocal n_sites
+        for fn in body:
+            if isinstance(fn, ast.ClassDef):
+                visit(fn.body, prefix + fn.name + ".")
+            elif isinstance(fn, (ast.FunctionDef, ast.AsyncFunctionDef)):
+                for c in ast.walk(fn):
+                    if not (isinstance(c, ast.Call) and isinstance(c.func, ast.Name)):
+                        continue
+                    params = resolve(c.func.id)
+                    if not params:
+                        continue
+                    n_sites += 1
+                    for i, a in enumerate(c.args):
+                        if isinstance(a, ast.Starred) or i >= len(params):
+                            break
+                        t = a.attr if isinstance(a, ast.Attribute) else (a.id if isinstance(a, ast.Name) else None)
+                        if t and t != params[i] and t in params:
+                            out.append((c, prefix + fn.name, c.func.id, i, t, params[i]))
+                visit(fn.body, prefix + fn.name + ".")
+    visit(tree.body, "")
+    return out, n_sites
+
+
+def check_swapped_arguments(idx: Index, rep, relpaths: Iterable[str], rule: str = "K7.swapped-arguments") -> int:
+    ex_tree = ast.parse(_SWAP_EXAMPLE)
+    ex_params = {f.name: [a.arg for a in f.args.args] for f in ex_tree.body if isinstance(f, ast.FunctionDef)}
+    ex, _ = swapped_findings(ex_tree, lambda nm: ex_params.get(nm))
+    if [(q, i) for _, q, _, i, _, _ in ex] != [("U.bad", 2), ("U.bad", 3)]:
+        raise AnalysisError(f"swapped-arguments rule self-check failed: {[(q, i) for _, q, _, i, _, _ in ex]}")
+    from ..index import FunctionInfo
+    total = 0
+    for rel in relpaths:
+        try:
+            m = idx.module_by_relpath(rel)
+        except Exception:
+            continue
+
+        def resolve(name, m=m):
+            try:
+                r = idx.resolve_name(m, name)
+            except Exception:
+                return None
+            if not isinstance(r, FunctionInfo) or r.module.external:
+                return None
+            ps = [a.arg for a in r.node.args.posonlyargs + r.node.args.args]
+            return ps[1:] if ps and ps[0] in ("self", "cls") else ps
+        hits, n_sites = swapped_findings(m.tree, resolve)
+        total += n_sites
+        for node, qual, callee, i, got, want in hits:
+            rep.violation(rule, (m.relpath, qual), node, text=f"{qual}: {callee}(... position {i}: {got} ...)", what="a positional argument reaches the parameter it is named after",
+                          reason=f"`{got}` is passed in position {i}, which is {callee}'s parameter `{want}`; {callee} also has a parameter `{got}`: the two are swapped")
+        rep.ok(rule, (m.relpath, "<module>"), None, text=f"{rel}: {n_sites} calls of repository functions by position ({len(hits)} with an argument named after another parameter)",
+               what="a positional argument reaches the parameter it is named after", nontrivial=False)
+    return total
